@@ -24,6 +24,12 @@ func Faults() []Fault {
 		{Name: "indent-space-first-deeper", Abs: true, Lines: func(t string) string { return t + "%p\n" + spaceAt(t+"\t", 0) + "%b deeper, first tab is a space" }},
 		{Name: "indent-space-middle-deeper", Abs: true, Lines: func(t string) string { return t + "%p\n" + spaceAt(t+"\t", len(t)/2) + "%b deeper, a middle tab is a space" }},
 		{Name: "indent-space-last-deeper", Abs: true, Lines: func(t string) string { return t + "%p\n" + spaceAt(t+"\t", len(t)) + "%b deeper, last tab is a space" }},
+		{Name: "indent-two-levels-after-unindented", Abs: true, Lines: func(t string) string {
+			return "plain text at column 0\n\t\t%b two levels deeper than the unindented line"
+		}},
+		{Name: "indent-deeper-after-unindented", Abs: true, Lines: func(t string) string {
+			return "plain text at column 0\n" + t + "\t%b as deep as the block before the unindented line, plus one"
+		}},
 		{Name: "indent-two-levels", Lines: rel("%p", "\t\t%b two levels deeper")},
 		{Name: "inline-and-nested", Lines: rel("%p inline", "\t%b nested too")},
 		{Name: "inline-script-and-nested", Lines: rel("%p= s0", "\t%b nested too")},
